@@ -7,6 +7,8 @@ a copy is an equal entity on fresh cells.
 import CBV.Lemmas.C09Algebra
 import CBV.Lemmas.C09Tree
 import CBV.Lemmas.C09Center
+import CBV.Lemmas.C09Copy
+import CBV.Lemmas.C09Arc
 
 namespace CBV.C09
 open CBV
@@ -219,5 +221,102 @@ theorem T_C09_compose_face (t : RT) (a : Rat) (i0 i1 i2 i3 : Nat) (edges : List 
 
 /-- an operation keeps its centre under `mirror` although its faces are swapped -/
 theorem T_C09_center_swap (ps qs : List V3) : avg (ps ++ qs) = avg (qs ++ ps) := avg_append_comm ps qs
+
+/-! ### T_C09_derived — arc points derived from transformed edge data -/
+
+/-- `Origin` edges (and every use of `functions.arc_mid`): the third point computed from the transformed centre and
+    end points is the transformed third point; the square-root witnesses `r = |c − p1|`, `s = |mid − c|` are
+    multiplied by the similarity ratio `k` -/
+theorem T_C09_derived_origin (t : RT) (c p1 p2 : V3) (r s k : Rat) (hk : k ≠ 0) (hs : s ≠ 0) :
+    arcMid (t.pt c) (t.pt p1) (t.pt p2) (k * r) (k * s) = t.pt (arcMid c p1 p2 r s) :=
+  arcMid_equivariant t c p1 p2 r s k hk hs
+
+/-- … and the scaled witnesses are witnesses of the transformed data whenever `k·k` is the squared ratio -/
+theorem T_C09_derived_witness (t : RT) (ht : t.Valid) (p q : V3) (r k : Rat) (hr : r * r = V3.norm2 (p - q))
+    (hk : k * k = t.ratio2) : (k * r) * (k * r) = V3.norm2 (t.pt p - t.pt q) := by
+  rw [T_C09_point_similarity t ht, ← hr, ← hk]; ring
+
+/-- `Angle` edges: the centre `arc_from_theta` computes from the transformed end points and the transformed axis
+    cell (`t.dir`: turned by a rotation, untouched by translation and scaling, reflected *and reversed* by a mirror)
+    is the transformed centre — for every sector angle (`τ = tan(θ/2)`), with the witnesses `cr = |dp × axis|`,
+    `m = |chord|` multiplied by the ratio -/
+theorem T_C09_derived_angle (p1 p2 ax : V3) (τ cr m : Rat) (hcr : cr ≠ 0) (hτ : τ ≠ 0) :
+    (∀ d, angleCenter ((RT.translate d).pt p1) ((RT.translate d).pt p2) ((RT.translate d).dir ax) τ cr m
+        = (RT.translate d).pt (angleCenter p1 p2 ax τ cr m)) ∧
+    (∀ w a o, w * w + V3.dot a a ≠ 0 →
+      angleCenter ((RT.rotate w a o).pt p1) ((RT.rotate w a o).pt p2) ((RT.rotate w a o).dir ax) τ cr m
+        = (RT.rotate w a o).pt (angleCenter p1 p2 ax τ cr m)) ∧
+    (∀ r o, r ≠ 0 →
+      angleCenter ((RT.scale r o).pt p1) ((RT.scale r o).pt p2) ((RT.scale r o).dir ax) τ (r * cr) (r * m)
+        = (RT.scale r o).pt (angleCenter p1 p2 ax τ cr m)) ∧
+    (∀ n o, V3.dot n n ≠ 0 →
+      angleCenter ((RT.mirror n o).pt p1) ((RT.mirror n o).pt p2) ((RT.mirror n o).dir ax) τ cr m
+        = (RT.mirror n o).pt (angleCenter p1 p2 ax τ cr m)) := by
+  have key : ∀ (t : RT) (off' : V3), off' = t.lin (angleOffset (p2 - p1) ax τ cr m) →
+      V3.smul (1 / 2) (t.pt p1 + t.pt p2) + off' = t.pt (V3.smul (1 / 2) (p1 + p2) + angleOffset (p2 - p1) ax τ cr m) := by
+    intro t off' h
+    rw [h, RT.pt_mid]
+    have := RT.pt_sub t (V3.smul (1 / 2) (p1 + p2) + angleOffset (p2 - p1) ax τ cr m) (V3.smul (1 / 2) (p1 + p2))
+    rw [add_comm' (V3.smul (1 / 2) (p1 + p2)) _, add_sub_cancel'] at this
+    rw [← this, add_comm' (V3.smul (1 / 2) (p1 + p2)) _]
+    apply V3.ext' <;> simp only [V3.add_x, V3.add_y, V3.add_z, V3.sub_x, V3.sub_y, V3.sub_z] <;> ring
+  refine ⟨?_, ?_, ?_, ?_⟩
+  · intro d
+    unfold angleCenter
+    apply key
+    have : (RT.translate d).pt p2 - (RT.translate d).pt p1 = p2 - p1 := by
+      rw [RT.pt_sub]; rfl
+    rw [this]; rfl
+  · intro w a o hN
+    unfold angleCenter
+    apply key
+    rw [RT.pt_sub]
+    exact angleOffset_rotate w a (p2 - p1) ax τ cr m hN
+  · intro r o hr
+    unfold angleCenter
+    apply key
+    rw [RT.pt_sub]
+    exact angleOffset_scale r (p2 - p1) ax τ cr m hr hcr hτ
+  · intro n o hn
+    unfold angleCenter
+    apply key
+    rw [RT.pt_sub]
+    exact angleOffset_mirror n (p2 - p1) ax τ cr m hn
+
+example : (3 : Rat) ≠ 0 ∧ (1 / 2 : Rat) ≠ 0 := by norm_num
+
+/-- the chord and `dp × axis` of the transformed data are `ratio` times as long, so the scaled witnesses of
+    `T_C09_derived_angle` are the ones the implementation computes -/
+theorem T_C09_derived_angle_witness (t : RT) (ht : t.Valid) (dp ax : V3) :
+    V3.dot (chordOf (t.lin dp) (t.dir ax)) (chordOf (t.lin dp) (t.dir ax)) = t.ratio2 * V3.dot (chordOf dp ax) (chordOf dp ax) ∧
+    V3.dot (V3.cross (t.lin dp) (t.dir ax)) (V3.cross (t.lin dp) (t.dir ax))
+      = t.ratio2 * V3.dot (V3.cross dp ax) (V3.cross dp ax) :=
+  chord_cross_scale t ht dp ax
+
+/-! ### T_C09_copy -/
+
+/-- `copy()` leaves the heap it started from untouched (it is a prefix of the new heap), builds a tree of the same
+    shape whose leaves read equal values, and all its cells are fresh: no identity is shared with the original -/
+theorem T_C09_copy (e : Ent) (h : Heap) (hin : InHeap e h) :
+    (∃ ext, (copy e h).2 = h ++ ext) ∧
+    valsE (copy e h).2 (copy e h).1 = valsE h e ∧
+    skelE (copy e h).1 = skelE e ∧
+    (∀ v ∈ visitsE (copy e h).1, h.length ≤ v.1 ∧ v.1 < (copy e h).2.length) := by
+  have hinv : Inv h ⟨[], h⟩ := ⟨⟨[], by simp⟩, by intro p hp; cases hp⟩
+  obtain ⟨⟨_, hext, hvals, hfresh⟩, hskel⟩ := copyE_spec h e ⟨[], h⟩ hinv hin
+  exact ⟨hext, hvals, hskel, hfresh⟩
+
+example : InHeap sampleFace (List.replicate 8 V3.zero) := by unfold InHeap; decide
+
+/-- independence: whatever method is then called on the copy, every cell of the original keeps its value -/
+theorem T_C09_copy_independent (t : RT) (e : Ent) (h : Heap) (hin : InHeap e h) (i : Nat) (hi : i < h.length) :
+    Heap.get (applyE t (copy e h).1 (copy e h).2).2 i = Heap.get h i := by
+  obtain ⟨⟨ext, hext⟩, _, _, hfresh⟩ := T_C09_copy e h hin
+  rw [applyE_heap, runV_untouched]
+  · rw [hext]; exact get_append_left _ _ _ hi
+  · intro hmem
+    obtain ⟨v, hv, hvi⟩ := List.mem_map.mp hmem
+    have := (hfresh v hv).1
+    omega
 
 end CBV.C09
